@@ -3,7 +3,7 @@
 
 use crate::engine::{Ctx, Driver, Ev, Tier};
 use crate::locks::{cfg_get, cfg_num};
-use crate::payload::{self, BVal, Payload, Val};
+use crate::payload::{self, BVal, Payload, Val, Zst};
 use crate::slots::call_p;
 use crate::util::Fp;
 use futures_intrusive::buffer::{ArrayBuf, FixedHeapBuf, GrowingHeapBuf, RingBuf};
@@ -86,7 +86,7 @@ fn make<P: Payload>(kind: &str, cap: usize) -> Box<dyn Buf<P>> {
         };
     }
     match kind {
-        "array" => arr!(0, 1, 2, 3, 4, 5, 7, 8, 16),
+        "array" => arr!(0, 1, 2, 3, 4, 5, 6, 7, 8, 12, 16),
         "user" => match cap {
             100 => Box::new(ArrayBuf::<P, Arr100<P>>::new()),
             _ => Box::new(ArrayBuf::<P, Arr384<P>>::new()),
@@ -147,12 +147,13 @@ impl<P: Payload> RbCore<P> {
         let cap = match kind {
             "fixednew" | "growingnew" => 0,
             "arraywc" => if cap_arg == 2 { 2 } else { 3 },
-            "array" => if [0, 1, 2, 3, 4, 5, 7, 8, 16].contains(&cap_arg) { cap_arg } else { 64 },
+            "array" => if [0, 1, 2, 3, 4, 5, 6, 7, 8, 12, 16].contains(&cap_arg) { cap_arg } else { 64 },
             "user" => if cap_arg == 100 { 100 } else { 384 },
             "huge" => 65536,
             _ => cap_arg,
         };
-        let huge = cap > 1000;
+        // zero sized elements have no identity either: only counts and per-call drop deltas are checked
+        let huge = cap > 1000 || P::ANON;
         let base = if huge { 1 } else { payload::reserve(4000) };
         let mut c = RbCore {
             buf: Some(buf),
@@ -194,7 +195,12 @@ impl<P: Payload> RbCore<P> {
                 self.next += 1;
                 let v = P::new(t);
                 let b = self.buf.as_mut().unwrap();
+                let z0 = payload::zst_drops();
                 call_p(ctx, "C19", "ringbuf-push", al, de, move || b.push(v));
+                if P::ANON {
+                    let dz = payload::zst_drops() - z0;
+                    ctx.check("C19", "push-drops-nothing", true, dz == 0, || format!("{} zero sized elements were dropped inside push()", dz));
+                }
                 self.model.push_back(t);
                 self.pushes += 1;
                 if self.cap > 0 && self.pushes > self.cap as u64 {
@@ -203,9 +209,14 @@ impl<P: Payload> RbCore<P> {
             }
             POP => {
                 let b = self.buf.as_mut().unwrap();
+                let z0 = payload::zst_drops();
                 if let Some(v) = call_p(ctx, "C19", "ringbuf-pop", al, de, move || b.pop()) {
                     let want = self.model.pop_front();
-                    let got = v.tag();
+                    let got = if P::ANON { want.unwrap_or(0) } else { v.tag() };
+                    if P::ANON {
+                        let dz = payload::zst_drops() - z0;
+                        ctx.check("C19", "popped-element-not-dropped-by-buffer", true, dz == 0, || format!("{} zero sized elements were dropped inside pop()", dz));
+                    }
                     ctx.check("C19", "pop-returns-oldest-element", true, Some(got) == want, || format!("pop() returned tag {} expected {:?}", got, want));
                     let d = if self.huge { 0 } else { payload::drops(got) };
                     ctx.check("C19", "popped-element-not-dropped-by-buffer", true, d == 0, || format!("popped tag {} already has drop count {}", got, d));
@@ -225,7 +236,14 @@ impl<P: Payload> RbCore<P> {
         let stored: Vec<u32> = self.model.iter().copied().collect();
         let wrapped = self.wrapped;
         let b = self.buf.take().unwrap();
+        let z0 = payload::zst_drops();
         call_p(ctx, "C19", "ringbuf-drop", u64::MAX, u64::MAX, move || drop(b));
+        if P::ANON {
+            let dz = payload::zst_drops() - z0;
+            ctx.check("C19", "buffer-drop-drops-every-stored-element-exactly-once", true, dz == stored.len() as u64, || {
+                format!("{} zero sized elements were stored when the buffer was dropped (wrapped: {}), {} were dropped", stored.len(), wrapped, dz)
+            });
+        }
         if self.huge {
             self.popped.clear();
             return;
@@ -253,6 +271,7 @@ impl<P: Payload> RbCore<P> {
 pub enum RingbufDriver {
     V(RbCore<Val>),
     B(RbCore<BVal>),
+    Z(RbCore<Zst>),
 }
 
 impl Driver for RingbufDriver {
@@ -262,7 +281,7 @@ impl Driver for RingbufDriver {
     fn configs(_tier: Tier) -> Vec<String> {
         let mut v = vec![];
         for payload in ["val", "bval"] {
-            for cap in [0, 1, 2, 3, 4, 5, 7, 8, 16, 64] {
+            for cap in [0, 1, 2, 3, 4, 5, 6, 7, 8, 12, 16, 64] {
                 v.push(format!("buf=array,cap={},payload={}", cap, payload));
             }
             for cap in 0..6 {
@@ -279,6 +298,10 @@ impl Driver for RingbufDriver {
         }
         if !cfg!(miri) {
             v.push("buf=huge,cap=65536,payload=val,nobfs=1".to_string());
+        }
+        // zero sized elements (collections special-case them)
+        for (k, cap) in [("array", 3), ("fixed", 0), ("fixed", 2), ("fixed", 5), ("growing", 0), ("growing", 3), ("fixednew", 0), ("growingnew", 0)] {
+            v.push(format!("buf={},cap={},payload=zst", k, cap));
         }
         v
     }
@@ -299,6 +322,8 @@ impl Driver for RingbufDriver {
     fn new(cfg: &str, _k: usize, _bounded: bool) -> Self {
         if cfg_get(cfg, "payload") == Some("bval") {
             RingbufDriver::B(RbCore::new(cfg))
+        } else if cfg_get(cfg, "payload") == Some("zst") {
+            RingbufDriver::Z(RbCore::new(cfg))
         } else {
             RingbufDriver::V(RbCore::new(cfg))
         }
@@ -307,6 +332,7 @@ impl Driver for RingbufDriver {
         match self {
             RingbufDriver::V(c) => c.enabled(out),
             RingbufDriver::B(c) => c.enabled(out),
+            RingbufDriver::Z(c) => c.enabled(out),
         }
     }
     fn weight(&self, ev: Ev, profile: u8) -> u32 {
@@ -320,18 +346,21 @@ impl Driver for RingbufDriver {
         match self {
             RingbufDriver::V(c) => c.step(ev, ctx),
             RingbufDriver::B(c) => c.step(ev, ctx),
+            RingbufDriver::Z(c) => c.step(ev, ctx),
         }
     }
     fn fp(&self) -> u64 {
         match self {
             RingbufDriver::V(c) => c.fp,
             RingbufDriver::B(c) => c.fp,
+            RingbufDriver::Z(c) => c.fp,
         }
     }
     fn finish(self, ctx: &mut Ctx) {
         match self {
             RingbufDriver::V(c) => c.finish(ctx),
             RingbufDriver::B(c) => c.finish(ctx),
+            RingbufDriver::Z(c) => c.finish(ctx),
         }
     }
     fn ev_name(ev: Ev) -> String {
